@@ -674,8 +674,12 @@ func init() {
 		}
 	}
 	Registry["C02"] = func(c *Ctx) {
-		c.R.Rule = "the C01 history search extended with workspace pre-state operations on output paths between builds (delete output, delete its parent directory, modify, truncate, delete a directory output, replace a file output by a directory, add a stale file to a directory output, clear an exec bit); after every build the set of executed commands (trace written by the commands themselves) must EQUAL the set predicted by the reference cache model: nothing on a no-op rebuild, only targets whose state has no cached result otherwise; dependants of a target that reproduces identical outputs are restored (early cut-off); every clone of the workspace lives at a different absolute path. Thorough additionally runs sha256 and load_outputs=minimal universes."
+		c.R.Rule = "the C01 history search extended with workspace pre-state operations on output paths between builds (delete output, delete its parent directory, modify, truncate, delete a directory output, replace a file output by a directory, add a stale file to a directory output, clear an exec bit); after every build the set of executed commands (trace written by the commands themselves) must EQUAL the set predicted by the reference cache model: nothing on a no-op rebuild, only targets whose state has no cached result otherwise; dependants of a target that reproduces identical outputs are restored (early cut-off); every clone of the workspace lives at a different absolute path. Thorough additionally runs sha256 and load_outputs=minimal universes. Missing input: a target declaring a literal input that does not exist, followed in sort order by inputs edited without changing their size, six builds in both modes: the target and its dependant execute exactly after each change."
 		c.R.Assume("commands of the model workspace are deterministic", "executions are observed through an O_APPEND trace file written by the commands", "the reference model predicts a hit whenever a successful result for the identical target state was stored earlier in the same history")
+		if os.Getenv("VERIF_PART") == "missing-input" { // development aid: this part alone
+			c02MissingInput(c)
+			return
+		}
 		// "irrespective of timing": the output hash that decides early cut-off must not depend on the
 		// order in which a target's concurrent output writers finish (real Registry under the scheduler)
 		defer outOrder(c, "C02")
@@ -685,6 +689,8 @@ func init() {
 				e.flags = append(e.flags, buildFlags{Pattern: "//...", HashAlgo: "sha256"}, buildFlags{Pattern: "//...", LoadOutputs: "minimal"})
 			}
 		})(c)
+		// a declared input that does not exist, followed by inputs that are edited without changing their size
+		c02MissingInput(c)
 		// chain workspace: edits x taint; a taint is consumed by whatever execution follows it (also one caused by an edit),
 		// afterwards a no-op build executes nothing
 		chainCheck("C02", []string{"C02:", "C13:dependant-or-clean-target-executed", "C13:taint-not-consumed-by-successful-execution"}, 5, 6, func(e *chainEngine, thorough bool) {
